@@ -63,6 +63,11 @@ CHECKS = {
         text="Lean proof over an interleaving model of the generated threaded machine (producers, worker, stopper, events triggered from callbacks), for EVERY reachable state of EVERY label sequence: the processed events of each source are a prefix of its trigger order and, with queue and pending ones, exactly the triggered events - exactly once, per-producer FIFO, nothing lost (C11_exactly_once_fifo, C11_fifo_prefix); never two process bodies active (C11_run_to_completion); stop() returned implies queue drained and worker gone, after which no worker step is enabled (C11_stop_postcondition, C11_nothing_after_stop); while stop() waits some step is always enabled (C11_no_deadlock) and every worker step strictly decreases a variant no other thread can increase (C11_worker_step_decreases, C11_other_step_keeps_measure), so stop() returns under fairness; tied to the code by executing the real generated module under a seeded cooperative scheduler and replaying each executed schedule on the model.",
         ref="DESIGN.md 6/C11", technique="Lean 4 proof (inductive invariants over all interleavings, variant for termination) + controlled-scheduler trace validation",
         note="Atomicity granularity and CPython's Queue/RLock/join semantics are assumptions validated by the scheduler runs; fairness is assumed for termination; the model is of the template after fix 8102b3d."),
+    "C15": dict(
+        text="Lean proof over an interleaving model of threaded_dispatcher + threadsafe_queue (k producers, m workers, the destroying thread; every label sequence): with one worker, handled ++ discarded-at-shutdown ++ in-hand ++ queued items of each producer are exactly its dispatched items in order - at most once, per-producer FIFO (C15_at_most_once_fifo, C15_handled_is_prefix), two handler calls in progress are the same call (C15_never_two_at_a_time); while alive a queued item's handler call has begun after at most 4k+5 worker steps in EVERY continuation whatever producers do (C15_eventually_handled, bounded response; C15_alive_progress: the worker's step is enabled); destruction: wake releases every waiter, each worker step lowers a rank, join becomes enabled (C15_wake_releases_all_waiters, C15_worker_rank_decreases, C15_destroy_terminates); with the generated destruction order no handler runs once the derived object is gone (C15_no_handoff_to_dead_object, with the reachable counterexample for the old order); lockset theorem over regenerated access facts (C15_lockset_race_free) and regenerated side conditions (C15_model_side_conditions, C15_stop_first); tied to the code by ThreadSanitizer runs of the real headers under seeded jitter whose logs are replayed on the model.",
+        ref="DESIGN.md 6/C15", technique="Lean 4 proof (inductive invariant over all interleavings, bounded-response variant, lockset table) + regenerated source facts + ThreadSanitizer stress runs with trace replay on the model",
+        category="proof",
+        note="Partial with respect to the C++ memory model: race freedom is a lockset discipline theorem over facts extracted from the headers plus ThreadSanitizer on explored schedules, not a proof against the standard's happens-before; OS scheduler fairness assumed; FIFO/never-two are for one worker as the property states; FreeRTOS/ARM variants not modelled."),
 }
 PENDING = {}
 
